@@ -843,6 +843,41 @@ def gen_mixed(env, rng, n):
         yield c
 
 
+BURST_SIZES = [129, 255, 1000]
+
+
+def gen_bursts(env, rng, reps):
+    """> 128 complete small frames merged into ONE read pass (or split over two reads with > 128 in the second),
+    then the peer is quiet: everything that was received in full must be delivered without further traffic"""
+    t = env.table
+    pool = [t.vid(x) for x in ("m", 0, None, {"type": "append_entries", "term": 1}, b"", ("k", 1), "x" * 30)]
+    for _ in range(reps):
+        for n in BURST_SIZES + [rng.randrange(130, 600)]:
+            ids = [pool[rng.randrange(len(pool))] for _ in range(n)]
+            stream = b"".join(t.frame(i) for i in ids)
+            for shape in ("one-read", "two-reads", "with-partial-tail"):
+                recvbuf = 2 ** 13
+                s2 = stream
+                expect = {"mon": "valid", "sent": ids}
+                if shape == "with-partial-tail":
+                    f = t.frame(pool[3])
+                    part = f[:rng.randrange(1, len(f))]
+                    s2 = stream + part
+                    expect["leftover"] = part.hex()
+                chunks = [s2[i:i + recvbuf] for i in range(0, len(s2), recvbuf)]
+                if shape == "two-reads":
+                    # a handful of frames first, then the rest (> 128 complete frames) in the second read
+                    first = sum(len(t.frame(i)) for i in ids[:rng.randrange(0, n - 129 + 1)]) + rng.randrange(0, 4)
+                    a, b = s2[:first], s2[first:]
+                    events = ([[a[i:i + recvbuf] for i in range(0, len(a), recvbuf)]] if a else []) + \
+                        [[b[i:i + recvbuf] for i in range(0, len(b), recvbuf)]]
+                else:
+                    events = [chunks]
+                c = reader_case(env, "burst-" + shape, sorted(set(ids)), s2, events, expect)
+                c["burst"] = n
+                yield c
+
+
 SLOW_KINDS = ["slow-quiet", "slow-busy", "silent-send", "silent-write-event", "silent-late-data", "silent-boundary"]
 
 
@@ -1038,10 +1073,17 @@ def monitor(env, case, real, rng=None):
     if mon == "valid":
         sent = ex["sent"]
         if real["delivered"] != sent:
-            kind = "duplicate-or-reordered" if sorted(real["delivered"]) != sorted(sent) or \
-                len(real["delivered"]) >= len(sent) else "lost-or-late"
-            v.append({"signature": "tcp_connection.read:delivered-differs:" + kind,
-                      "what": "valid frame stream: delivered ids %r, sent ids %r" % (real["delivered"][:12], sent[:12])})
+            d = real["delivered"]
+            if d == sent[:len(d)]:
+                kind = "lost-or-late"       # a proper prefix: frames received in full are not delivered
+                what = "valid frame stream received in full, the peer is quiet: only the first %d of %d messages were " \
+                       "delivered (%d bytes left in the read buffer)" % (len(d), len(sent), len(real["rbuf"]))
+            else:
+                kind = "duplicate-or-reordered"
+                fd = next((i for i, (x, y) in enumerate(zip(d, sent)) if x != y), min(len(d), len(sent)))
+                what = "valid frame stream: delivered %d messages, sent %d, first difference at position %d: " \
+                       "delivered ids %r, sent ids %r" % (len(d), len(sent), fd, d[fd:fd + 8], sent[fd:fd + 8])
+            v.append({"signature": "tcp_connection.read:delivered-differs:" + kind, "what": what})
         if real["state"] != 2 or real["ndisc"] != 0:
             v.append({"signature": "tcp_connection.read:valid-stream-disconnected",
                       "what": "valid frame stream left the connection %s (onDisconnected x%d)"
@@ -1645,9 +1687,20 @@ def gen_drain(env, rng, n):
             msgs.append([m, script])
         # the last send certainly leaves bytes behind
         msgs[-1][1] = {"eagain": ["a"], "short": [rng.randrange(1, 4), "a"], "zero": [0]}[last]
-        yield {"kind": "drain", "last": last, "init": rng.choice(["socket", "connect"]),
-               "warm_write_events": rng.randrange(1, 3), "msgs": msgs,
-               "accept": rng.choice([1, 7, 100, 4096, 10 ** 9]), "both_bits": rng.random() < 0.3}
+        dc = {"kind": "drain", "last": last, "init": rng.choice(["socket", "connect"]),
+              "warm_write_events": rng.randrange(1, 3), "msgs": msgs,
+              "accept": rng.choice([1, 7, 100, 4096, 10 ** 9]), "both_bits": rng.random() < 0.3}
+        if j % 2 == 1:
+            # an outgoing connection whose onConnected handler queues more than the socket takes at once
+            # (sizes 10 ... 300000); afterwards the application is silent (or sends one more burst)
+            oc = []
+            for _ in range(rng.randrange(1, 4)):
+                size = rng.choice([10, 100, 5000, 70000, 300000])
+                oc.append([t.vid(rng.randbytes(size)), [x for x in gen_send_script(rng, 4) if x not in ("e", -1)]])
+            oc[-1][1] = {"eagain": ["a"], "short": [rng.choice([1, 3, 1000, 8192]), "a"], "zero": [0]}[last]
+            dc.update({"init": "connect", "onconn": oc, "warm_write_events": 0,
+                       "msgs": msgs if rng.random() < 0.3 else []})
+        yield dc
 
 
 def run_drain(env, dc, rounds=400):
@@ -1659,7 +1712,13 @@ def run_drain(env, dc, rounds=400):
     def on_disc():
         obs["ndisc"] += 1
     env.clock[0] = 0
-    kw = dict(onDisconnected=on_disc, timeout=10 ** 6)
+    holder = {}
+
+    def on_conn():
+        for m, script in dc.get("onconn") or []:
+            holder["sock"].sends = list(script)
+            holder["c"].send(t.vals[m])
+    kw = dict(onDisconnected=on_disc, onConnected=on_conn, timeout=10 ** 6)
     if dc["init"] == "socket":
         sock = FakeSocket(env.cov)
         env.last_sock[0] = sock
@@ -1670,6 +1729,7 @@ def run_drain(env, dc, rounds=400):
         env.next_sends[:] = []
         conn.connect("127.0.0.1", 4321)
         sock = env.last_sock[0]
+    holder["c"], holder["sock"] = conn, sock
 
     def fire(mask, sends):
         sock.sends = list(sends)
@@ -1693,6 +1753,7 @@ def run_drain(env, dc, rounds=400):
     for _ in range(dc["warm_write_events"] + (1 if dc["init"] == "connect" else 0)):
         poll_once([10 ** 9])
     obs["mask_before_burst"] = poller.masks.get(sock.fd, -1)
+    obs["pending_after_onconnected"] = len(conn._TcpConnection__writeBuffer)
     for m, script in dc["msgs"]:
         env.clock[0] += 1
         sock.sends = list(script)
@@ -1702,7 +1763,7 @@ def run_drain(env, dc, rounds=400):
             obs["exc"].append("send:" + type(e).__name__)
     obs["pending_after_burst"] = len(conn._TcpConnection__writeBuffer)
     obs["mask_after_burst"] = poller.masks.get(sock.fd, -1)
-    total = sum(len(t.frame(m)) for m, _ in dc["msgs"])
+    total = sum(len(t.frame(m)) for m, _ in (dc.get("onconn") or []) + dc["msgs"])
     k = max(dc["accept"], total // (rounds // 2) + 1)
     n = 0
     while n < rounds and conn.state == 2:
@@ -1723,14 +1784,16 @@ def monitor_drain(env, dc, obs):
     v = []
     for x in obs["exc"]:
         v.append({"signature": "tcp_connection.drain:exception-escaped:" + x, "what": "exception escaped: " + x})
-    F = b"".join(t.frame(m) for m, _ in dc["msgs"])
+    allmsgs = (dc.get("onconn") or []) + dc["msgs"]
+    F = b"".join(t.frame(m) for m, _ in allmsgs)
     if obs["wire"] != F:
         if obs["wire"] == F[:len(obs["wire"])] and obs["state"] == 2:
             v.append({"signature": "tcp_connection.write:partial-write-never-flushed",
-                      "what": "%d messages sent, the last send() left %d bytes in the write buffer (%s); the peer keeps reading "
+                      "what": ("%d of them from inside onConnected; " % len(dc["onconn"]) if dc.get("onconn") else "") +
+                              "%d messages sent, the last send() left %d bytes in the write buffer (%s); the peer keeps reading "
                               "and the poller keeps running (%d WRITE events delivered, subscription mask %s), nothing further is "
                               "sent: the peer has %d of %d bytes, %d bytes still pending"
-                              % (len(dc["msgs"]), obs["pending_after_burst"], dc["last"], obs["write_events"],
+                              % (len(allmsgs), obs["pending_after_burst"], dc["last"], obs["write_events"],
                                  obs["mask_after_burst"], len(obs["wire"]), len(F), obs["wbuf"])})
         else:
             v.append({"signature": "tcp_connection.drain:wire-differs",
@@ -1744,7 +1807,7 @@ def monitor_drain(env, dc, obs):
 
 def public_drain(env, dc):
     c = json.loads(json.dumps(dc))
-    c["vals"] = {str(m): env.pk.dumps(env.table.vals[m]).hex() for m, _ in dc["msgs"]}
+    c["vals"] = {str(m): env.pk.dumps(env.table.vals[m]).hex() for m, _ in (dc.get("onconn") or []) + dc["msgs"]}
     return c
 
 
@@ -1752,6 +1815,8 @@ def load_drain(env, pc):
     remap = {int(k): env.table.vid(env.pk.loads(bytes.fromhex(h))) for k, h in pc.get("vals", {}).items()}
     c = {k: v for k, v in pc.items() if k != "vals"}
     c["msgs"] = [[remap.get(m, m), sc] for m, sc in pc["msgs"]]
+    if pc.get("onconn"):
+        c["onconn"] = [[remap.get(m, m), sc] for m, sc in pc["onconn"]]
     return c
 
 
@@ -1766,6 +1831,10 @@ def run_drain_family(env, rng, n, cov, out, seen=None):
             cov["drain:tail-pending-with-write-interest-dropped"] = cov.get("drain:tail-pending-with-write-interest-dropped", 0) + 1
         if obs["pending_after_burst"] > 8192:
             cov["drain:tail>8192"] = cov.get("drain:tail>8192", 0) + 1
+        if dc.get("onconn") and obs["pending_after_onconnected"] > 0:
+            cov["drain:backlog-queued-by-onconnected"] = cov.get("drain:backlog-queued-by-onconnected", 0) + 1
+            if obs["pending_after_onconnected"] > 100000:
+                cov["drain:onconnected-backlog>100000"] = cov.get("drain:onconnected-backlog>100000", 0) + 1
         if seen is not None:
             seen.add(hashlib.sha1(json.dumps(dc, sort_keys=True).encode()).hexdigest())
         for x in monitor_drain(env, dc, obs):
@@ -1777,7 +1846,9 @@ def run_drain_family(env, rng, n, cov, out, seen=None):
 
 
 DRAIN_FLOORS = ["drain:last-" + x for x in DRAIN_LAST] + ["drain:init-socket", "drain:init-connect",
-                                                          "drain:tail-pending-with-write-interest-dropped", "drain:tail>8192"]
+                                                          "drain:tail-pending-with-write-interest-dropped", "drain:tail>8192",
+                                                          "drain:backlog-queued-by-onconnected",
+                                                          "drain:onconnected-backlog>100000"]
 
 
 # ------------------------------------------------------------------------------------------------
@@ -1867,7 +1938,8 @@ def all_cases(ctx, env):
               gen_writer(env, rng, ctx.scale(300, 6000), benign=True),
               gen_writer(env, rng, ctx.scale(200, 4000), benign=False),
               gen_mixed(env, rng, ctx.scale(1500, 40000)),
-              gen_slow(env, ctx.rng("tcp_framing/slow"), ctx.scale(120, 3000))):
+              gen_slow(env, ctx.rng("tcp_framing/slow"), ctx.scale(120, 3000)),
+              gen_bursts(env, ctx.rng("tcp_framing/bursts"), ctx.scale(1, 8))):
         for c in g:
             yield c
 
@@ -1942,6 +2014,10 @@ def run(ctx):
             if nontrivial(c):
                 seen.add(case_hash(c))
             ex = c.get("expect", {})
+            if c.get("burst"):
+                cov["burst:" + c["kind"][6:]] = cov.get("burst:" + c["kind"][6:], 0) + 1
+                if c["burst"] >= 1000:
+                    cov["burst:1000-frames-in-one-pass"] = cov.get("burst:1000-frames-in-one-pass", 0) + 1
             if c["kind"] in SLOW_KINDS:
                 cov["timeout:" + c["kind"]] = cov.get("timeout:" + c["kind"], 0) + 1
             if ex.get("mon") == "corrupt":
@@ -2005,7 +2081,8 @@ def run(ctx):
                   "class:undecodable", "class:incomplete", "class:decodes", "ev:send", "ev:poll", "ev:disc", "ev:conn",
                   "payload>8192", "disconnects"] + ["reconnect:" + x for x in RECONNECT_PATTERNS + RECONNECT_MODES] + \
                  ["reconnect:old-data-fully-read", "reconnect:delivered-on-new-connection"] + \
-                 ["timeout:" + x for x in SLOW_KINDS] + RESEND_FLOORS + DRAIN_FLOORS
+                 ["timeout:" + x for x in SLOW_KINDS] + RESEND_FLOORS + DRAIN_FLOORS + \
+                 ["burst:one-read", "burst:two-reads", "burst:with-partial-tail", "burst:1000-frames-in-one-pass"]
         missing = [f for f in floors if not cov.get(f)]
         if missing:
             res["inconclusive"] = "coverage floor missed: " + ", ".join(missing)
@@ -2022,7 +2099,8 @@ def search(ctx, unproved):
             rng = ctx.rng("tcp_framing/search/%d" % salt)
             cases = gen_directed(env) + list(gen_corrupt(env, rng, 320)) + list(gen_reader_random(env, rng, 100)) + \
                 list(gen_writer(env, rng, 100, True)) + list(gen_writer(env, rng, 60, False)) + \
-                list(gen_reader_exhaustive(env, rng, 1, 8)) + list(gen_slow(env, rng, 60))
+                list(gen_reader_exhaustive(env, rng, 1, 8)) + list(gen_slow(env, rng, 60)) + \
+                (list(gen_bursts(env, rng, 1)) if salt == 0 else [])
             for c in cases:
                 r = env.run_real(c)
                 for x in monitor(env, c, r, rng):
@@ -2049,7 +2127,8 @@ def replay(ctx, violation):
             return {"violated": bool(viol), "violations": viol,
                     "implementation": {k: (v if k != "wire" else len(v)) for k, v in obs.items()},
                     "expect": "peer receives %d bytes = frames of %d messages" % (
-                        sum(len(env.table.frame(m)) for m, _ in dc["msgs"]), len(dc["msgs"])),
+                        sum(len(env.table.frame(m)) for m, _ in (dc.get("onconn") or []) + dc["msgs"]),
+                        len((dc.get("onconn") or []) + dc["msgs"])),
                     "model": "theorems write_interest_armed / write_buffer_drains; this family is a monitor on the real "
                              "code with a faithfully simulated poller"}
     if pc.get("kind") == "resend":
